@@ -48,6 +48,10 @@ pub fn expand(input: &DeriveInput, trait_name: &'static str) -> Result<TokenStre
         );
         let variant_ident = &variant.ident;
         let (data_pattern, ret_value, data_types) = get_field_info(&variant.fields);
+        let ref_data_types: Vec<_> = data_types
+            .iter()
+            .map(crate::utils::behind_reference)
+            .collect();
         let pattern = quote! { #enum_name :: #variant_ident #data_pattern };
 
         let (failed_block, failed_block_ref, failed_block_mut) = (
@@ -85,7 +89,7 @@ pub fn expand(input: &DeriveInput, trait_name: &'static str) -> Result<TokenStre
             #[track_caller]
             #[doc = #doc_ref]
             #[doc = #doc_else]
-            pub fn #ref_fn_name(&self) -> (#(&#data_types),*) {
+            pub fn #ref_fn_name(&self) -> (#(&#ref_data_types),*) {
                 match self {
                     #pattern => #ret_value,
                     val @ _ => #failed_block_ref,
@@ -98,7 +102,7 @@ pub fn expand(input: &DeriveInput, trait_name: &'static str) -> Result<TokenStre
             #[track_caller]
             #[doc = #doc_mut]
             #[doc = #doc_else]
-            pub fn #mut_fn_name(&mut self) -> (#(&mut #data_types),*) {
+            pub fn #mut_fn_name(&mut self) -> (#(&mut #ref_data_types),*) {
                 match self {
                     #pattern => #ret_value,
                     val @ _ => #failed_block_mut,
